@@ -5,6 +5,7 @@ sub-event and per-command Command Complete; hand-written conditions for the data
 commands with hand-written parsers, vendor events and unknown opcodes / event codes.
 """
 from vf.e1 import harness, registered
+from vf import flags as _flags
 from vf import gencodec
 
 from bumble import hci
@@ -194,3 +195,6 @@ def conditions():
     out = registered(__name__)
     out += gencodec.conditions(['hcicmd', 'hcievt', 'hcile', 'hcicc'])
     return out
+
+
+_flags.int_format_placeholder = True     # log f-strings with symbolic ints are not the subject here (see vf/flags.py)
